@@ -123,6 +123,7 @@ fn writer_profile(max_nodes: usize, text: TextMode) -> ForestProfile {
     let mut p = xml_profile(max_nodes, false, text);
     // conformance of the document, not which properties are kept: DoesNotSerialize properties are C02's side-check
     p.non_serializing = false;
+    p.narrow_numbers = false;
     p
 }
 
@@ -387,6 +388,8 @@ fn reader_profile(max_nodes: usize, known_only: bool) -> ForestProfile {
     p.types.retain(|t| !matches!(t, rbx_types::VariantType::SecurityCapabilities | rbx_types::VariantType::Vector2int16));
     p.free_roots = false;
     p.non_serializing = false;
+    p.narrow_numbers = false;
+    p.narrow_numbers = false;
     p
 }
 
